@@ -203,7 +203,7 @@ claim("C10",
       design_ref="DESIGN.md §5 C10")
 
 claim("C11",
-      text="Proved for all inputs of the model of tsql (39 theorems, incl. pins: the 20 lexer classes in order, operator table, function constants, defaults): the hash join equals the nested-loop comprehension (order and "
+      text="Proved for all inputs of the model of tsql (53 theorems in two props modules, incl. pins: the 20 lexer classes in order, operator table, function constants, defaults): the hash join equals the nested-loop comprehension (order and "
            "multiplicity); each join step keeps exactly the pairs that agree on every shared key name; select is the left-deep "
            "nested-loop join filtered by the condition and projected in order; every returned row is justified by one witness "
            "row per relation satisfying the condition; the single-relation case is stored order and multiplicity; '*' emits "
@@ -214,11 +214,18 @@ claim("C11",
            "non-empty set of required relations with at most one linking relation; the query parser inverts the printer on every "
            "normal-form condition tree and every full select with repeated 'where' (conjunction) with a concrete fuel bound "
            "(3 per token); a character-level model of the 20 ordered lexer classes returns the printer's tokens on their "
-           "rendering (lex_render), giving characters → query (lex_then_parse).",
-      note="Parameters of the model, exercised only on the real code: tsdb.cast/int() (cells and literals arrive with their cast "
-           "values), re.search (shipped as a truth table). The lexer model (ASCII) is compared with the real lexer on every "
-           "generated text and on stress texts; its proved alphabet has one date spelling and double-quoted strings (other "
-           "spellings: correspondence). General plan existence beyond the core schema is not proved (false for tree-linked "
+           "rendering (lex_render), giving characters → query (lex_then_parse). Round 4: the lexer theorem covers the whole condition "
+           "alphabet (lex_spelled / lex_spelled_then_parse under the decidable word predicate spells: both quote styles, all date "
+           "spellings, signed integers, regex literals, qualified identifiers); precedence_and_associativity (and over or, n-ary flat, "
+           "not takes everything to its right) for every unparenthesised condition; one theorem per operator on empty fields "
+           "(empty_eq … empty_nre, two-valued) and not_is_not_folded. Round 5, composition with C08 (imported, not edited): the model "
+           "runs end to end on RAW cells with C08's cast (Compose.lean: castDB, selectRaw, selectText; literal step int() = C08.castInt, "
+           "dates = C08.parseDate) with 14 theorems (empty_raw_cell, integer_spellings: 01 = 1, cells_are_cast_values, "
+           "selectRaw_bridge: every theorem about select carries over to raw files, selectRaw_sound).",
+      note="Parameters of the model, exercised only on the real code: re.search (shipped as a truth table), floats, and the inputs C08 "
+           "itself declares unmodelled (non-ASCII digits, int() spellings such as 1_0, now/:today) — the composed answer is then "
+           "'unmodelled' and counted. The lexer model (ASCII) is compared with the real lexer on every generated text and on stress "
+           "texts; the lexer theorem renders one blank after each token (tight and multi-blank layouts: correspondence). General plan existence beyond the core schema is not proved (false for tree-linked "
            "schemas needing two links: decide-checked counter-example; the property says 'at most one linking relation'). Row "
            "order of joins whose plan depends on Python set iteration is compared as a multiset. The relational oracle judges "
            "only tree-linked schemas; cyclic key graphs are model-vs-code only.",
@@ -342,7 +349,7 @@ claim("C15",
       design_ref="DESIGN.md §5 C15")
 
 claim("C06",
-      text="For the Lean model of is_isomorphic/_vf2 (23 theorems, incl. c06_pins: names and constants of 15 anchored functions and defaults read from the live code; repaired code: antiparallel edge labels merged, self-loop labels "
+      text="For the Lean model of is_isomorphic/_vf2 (28 theorems, incl. c06_pins: names and constants of 15 anchored functions and defaults read from the live code; repaired code: antiparallel edge labels merged, self-loop labels "
            "compared, properties of CARG-bearing predications compared): is_isomorphic never raises; its True is exactly "
            "isomorphism of the two encoding graphs — a bijection on variables and predications preserving the node-label entry "
            "(normalised predicate, constant, properties when requested) and all role, scope and constraint edges in both "
@@ -350,12 +357,11 @@ claim("C06",
            "completeness of the backtracking search with its candidate selection and every feasibility test (no extra "
            "hypotheses, no fuel bound). Hence it is reflexive (unconditionally), symmetric and transitive, and depends only on "
            "the isomorphism class of the encoding graphs. Bag comparison satisfies both counting identities for any predicate, "
-           "and under is_isomorphic a bag compared with a shuffled list of isomorphic copies of itself is entirely shared. Round 4, the encoding side: _make_mrs_isograph is characterised as a replay of an explicit write list (mkIsoGraph_eq_writes); is_isomorphic m (rename σ m) = True for every renaming injective on the variables (isIsomorphic_renamed), likewise for every permutation of RELS/HCONS/ICONS (isIsomorphic_reordered) and both at once, under named decidable hypotheses (NamesOK, SimpleIds, rowsOK, NoParallel) evaluated on every generated case; a True verdict implies equal multisets of predication node labels (faithful_labels_partial) and a single changed predicate, constant or compared property value gives False (single_label_change_rejected).",
+           "and under is_isomorphic a bag compared with a shuffled list of isomorphic copies of itself is entirely shared. Round 4, the encoding side: _make_mrs_isograph is characterised as a replay of an explicit write list (mkIsoGraph_eq_writes); is_isomorphic m (rename σ m) = True for every renaming injective on the variables (isIsomorphic_renamed), likewise for every permutation of RELS/HCONS/ICONS (isIsomorphic_reordered) and both at once, under named decidable hypotheses (NamesOK, SimpleIds, rowsOK, NoParallel) evaluated on every generated case; a True verdict implies equal multisets of predication node labels (faithful_labels_partial) and a single changed predicate, constant or compared property value gives False (single_label_change_rejected). Round 5, the property's first sentence as a theorem: with MRSIso defined without any graph (a variable bijection and a pairing of predications preserving normalised predicates, constants, compared properties, labels, role-labelled arguments, handle and individual constraints as multisets), isIsomorphic_iff_mrsIso: InSpace p m1 → InSpace p m2 → (is_isomorphic = True ↔ MRSIso) ∧ (= False ↔ ¬MRSIso), with both directions (isIsomorphic_imp_mrsIso, mrsIso_imp_isIsomorphic), not_mrsIso_rejected and mrsIso_passes_size_checks; InSpace is nine decidable clauses (NamesOK, NoParallel, disjoint edge-label alphabets, distinct blank-free upper-case roles per predication, label decoding, clean edge labels) evaluated by the driver on both structures of every case (1716 of 1783 compared pairs inside in a quick run).",
       note="Clean edge labels (no role starting with '--' or containing ' --') are assumed for soundness, symmetry and "
-           "transitivity; a decide-checked counter-example shows the assumption is necessary. Not proved, oracle-checked only "
-           "(exhaustive bijection search ≤7 predications, invariance checks ≤40, colour-refinement certificate): isomorphic "
-           "MRSs pass the size pre-checks; a graph isomorphism reads back as an MRS isomorphism on scopes, arguments and "
-           "constraints (the label part is proved). The model is tied to the code by comparing the graph, the augmented graph, the returned "
+           "transitivity; a decide-checked counter-example shows the assumption is necessary. Nothing of the property's clauses is left open for the model inside InSpace; "
+           "outside it (lower-case roles, unknown constraint relations) and on the real code everything is decided by the oracle "
+           "(exhaustive MRS-level bijection search ≤7 predications, invariance checks ≤40, colour-refinement certificate). The model is tied to the code by comparing the graph, the augmented graph, the returned "
            "mapping (candidate and backtracking order) and the verdict on every generated pair. Input space: distinct intrinsic "
            "variables, no parallel constraints, alphanumeric role names.",
       technique="Lean 4 proof over executable model (soundness + completeness of the matcher) + differential correspondence + exhaustive oracle",
